@@ -13,6 +13,11 @@ import (
 
 var c01Alpha = []string{"put:a", "put:b", "put:c", "del:a", "del:b", "putE:b", "putL:c", "b1", "b2", "cr", "crb", "q", "re"}
 var c01RichAlpha = []string{"put:a", "put:b", "put:c", "del:a", "del:b", "del:c", "w:-a,-c", "w:-b,+a", "cr", "crb", "q", "re"}
+// the zero-length key is an ordinary key: every place that uses "no key yet" / len==0 as a
+// sentinel must still treat it as one (alphabet with "" as the smallest of three keys)
+var emptyKeyAlpha = []string{"put:", "put:a", "put:b", "del:", "del:a", "putL:", "w:-,+a", "w:+,+,-b", "cr", "crk:", "q", "re"}
+var emptyKeyProbes = []string{"", "a", "b", "%00", "ab"}
+
 var c01AlphaBig = append(append([]string{}, c01Alpha...), "big")
 
 // key sets under which each custom comparer orders keys differently from bytes.Compare
@@ -49,6 +54,8 @@ func c01Specs(tier string) []seqSpec {
 		addEvery("flushy/bytewise", c01Alpha, 3)
 		addEvery("bigbatch/bytewise", c01AlphaBig, 3)
 		add("flushy/bytewise", c01Alpha, 4)
+		out = append(out, seqSpec{Cfg: "flushy/bytewise", Alpha: emptyKeyAlpha, Depth: 4, Checks: "db", Probes: emptyKeyProbes, Mode: "emptykey"})
+		out = append(out, seqSpec{Cfg: "deep/bytewise", Alpha: emptyKeyAlpha, Depth: 3, Checks: "db", Probes: emptyKeyProbes, Mode: "emptykey"})
 		add("rot/bytewise", c01Alpha, 4)
 		add("bigbatch/bytewise", c01AlphaBig, 4)
 		add("nobig/bytewise", c01AlphaBig, 3)
@@ -67,6 +74,9 @@ func c01Specs(tier string) []seqSpec {
 		addEvery("tinycache/bytewise", c01Alpha, 4)
 		addEvery("deep/bytewise", c01Alpha, 4)
 		add("flushy/bytewise", c01Alpha, 5)
+		out = append(out, seqSpec{Cfg: "flushy/bytewise", Alpha: emptyKeyAlpha, Depth: 5, Checks: "db", Probes: emptyKeyProbes, Mode: "emptykey"})
+		out = append(out, seqSpec{Cfg: "deep/bytewise", Alpha: emptyKeyAlpha, Depth: 5, Checks: "db", Probes: emptyKeyProbes, Mode: "emptykey"})
+		out = append(out, seqSpec{Cfg: "wide/bytewise", Alpha: emptyKeyAlpha, Depth: 4, Checks: "db", Probes: emptyKeyProbes, Mode: "emptykey"})
 		add("rot/bytewise", c01Alpha, 5)
 		add("deep/bytewise", c01Alpha, 5)
 		add("bigbatch/bytewise", c01AlphaBig, 5)
